@@ -101,6 +101,26 @@ class TaggedSerDes(SerDes):
         return json.loads(data[4:])
 
 
+class TaggedBatchSerDes(SerDes):
+    """A batch-level serdes (MapConfig / ParallelConfig `serdes`) that also has to cope with the items when no item serdes is given:
+    plain values as TAG:<json>, a BatchResult as TAGBR:<json of its dict form>."""
+
+    def serialize(self, value, _ctx):
+        from aws_durable_execution_sdk_python.concurrency.models import BatchResult
+
+        if isinstance(value, BatchResult):
+            return "TAGBR:" + json.dumps(value.to_dict())
+        return "TAG:" + json.dumps(value)
+
+    def deserialize(self, data, _ctx):
+        from aws_durable_execution_sdk_python.concurrency.models import BatchResult
+
+        if data.startswith("TAGBR:"):
+            return BatchResult.from_dict(json.loads(data[6:]))
+        assert data.startswith("TAG:")
+        return json.loads(data[4:])
+
+
 class ContextBoundSerDes(SerDes):
     """Binds every payload to the operation and execution it was written for (as an envelope-encrypting or storage-key based
     serdes does): reading it back under another context is an error."""
@@ -153,7 +173,18 @@ class OutageSerDes(SerDes):
         return json.loads(data)
 
 
-SERDES = {None: None, "exotic": ExoticSerDes(), "writeonly": WriteOnlySerDes(), "outage": OutageSerDes(), "json": JsonSerDes(), "utf8json": Utf8JsonSerDes(), "tagged": TaggedSerDes(), "ctxbound": ContextBoundSerDes()}
+def _summary_fn(cfgd):
+    """The user-supplied summary generator of a context / map / parallel: a constant, or one that fails for this result."""
+    if "summary_raises" in cfgd:
+        def gen(r, _cls=cfgd["summary_raises"]):
+            raise {"IndexError": IndexError, "ValueError": ValueError, "KeyError": KeyError}.get(_cls, RuntimeError)("summary generator failed")
+        return gen
+    if "summary" in cfgd:
+        return lambda r: cfgd["summary"]
+    return None
+
+
+SERDES = {None: None, "exotic": ExoticSerDes(), "writeonly": WriteOnlySerDes(), "outage": OutageSerDes(), "json": JsonSerDes(), "utf8json": Utf8JsonSerDes(), "tagged": TaggedSerDes(), "tagbr": TaggedBatchSerDes(), "ctxbound": ContextBoundSerDes()}
 
 
 _PROCESS_LOGGER = None
@@ -535,7 +566,7 @@ class Interp:
         cfg = None
         if cfgd:
             cfg = C.ChildConfig(serdes=SERDES[cfgd.get("serdes")],
-                                summary_generator=(lambda r: cfgd["summary"]) if "summary" in cfgd else None)
+                                summary_generator=_summary_fn(cfgd))
         return self.call(path, "child", lambda: ctx.run_in_child_context(body, name=path, config=cfg), chain=chain)
 
     @staticmethod
@@ -595,8 +626,8 @@ class Interp:
             cc = self._completion(cfgd)
             if cc is not None:
                 kw["completion_config"] = cc
-            if "summary" in cfgd:
-                kw["summary_generator"] = lambda r: cfgd["summary"]
+            if _summary_fn(cfgd) is not None:
+                kw["summary_generator"] = _summary_fn(cfgd)
             cfg = C.ParallelConfig(**kw)
         br = self.call(path, "par", lambda: ctx.parallel(fns, name=path, config=cfg), chain=chain)
         self._report_batch(path, br)
@@ -619,8 +650,8 @@ class Interp:
             cc = self._completion(cfgd)
             if cc is not None:
                 kw["completion_config"] = cc
-            if "summary" in cfgd:
-                kw["summary_generator"] = lambda r: cfgd["summary"]
+            if _summary_fn(cfgd) is not None:
+                kw["summary_generator"] = _summary_fn(cfgd)
             cfg = C.MapConfig(**kw)
         br = self.call(path, "map", lambda: ctx.map(items, fn, name=path, config=cfg), chain=chain)
         self._report_batch(path, br)
